@@ -146,6 +146,13 @@ def judge(ctx, case):
         ctx.viol("decrypt(encrypt(m)) != m before serialisation (%s)" % mode, {"resp": str(o.get("direct_decrypt"))[:200]})
     if len(msg) >= 65400:
         ctx.hit("len>=65400")
+    # the genuine sender key in the other SEC1 form decrypts just the same
+    for fld in ("direct_decrypt_other_form", "direct_decrypt_other_form_via_key"):
+        if fld in o and mode != "ephemeral":
+            ctx.ev()
+            ctx.hit("sender_key_other_form")
+            if o[fld].get("ok") != case["msg"]:
+                ctx.viol("decryption fails when the genuine sender key is given in the other SEC1 form (%s, %s)" % ("PrivateKey::decrypt_message" if fld.endswith("via_key") else "ECIES::decrypt", "key excluded" if exclude else "key included"), {"resp": str(o[fld])[:200]})
     # the negated sender key (same x coordinate) right after a genuine decryption on the same thread, then the genuine key again
     if "direct_decrypt_negated_sender" in o and mode != "ephemeral":
         for fld in ("direct_decrypt_negated_sender", "direct_decrypt_negated_sender_via_key"):
